@@ -10,6 +10,7 @@ mod bytes;
 mod c06;
 mod c12;
 mod cmdsim;
+mod compsim;
 mod core;
 mod driver;
 mod faulty_writer;
@@ -28,6 +29,7 @@ fn engine_for(prop: &str) -> Option<Box<dyn DynEngine>> {
         "C11" => Box::new(Dyn(cmdsim::CmdSim)),
         "C12" => Box::new(Dyn(c12::HelpSim)),
         "C16" => Box::new(Dyn(sinksim::SinkSim(sinksim::Which::C16))),
+        "C18" => Box::new(Dyn(compsim::CompSim)),
         "C19" => Box::new(Dyn(sinksim::SinkSim(sinksim::Which::C19))),
         "C13" => Box::new(Dyn(lexsim::LexSim(lexsim::Mode::C13))),
         "C14" => Box::new(Dyn(lexsim::LexSim(lexsim::Mode::C14))),
@@ -35,7 +37,7 @@ fn engine_for(prop: &str) -> Option<Box<dyn DynEngine>> {
     })
 }
 
-pub const ALL_PROPS: &[&str] = &["C06", "C11", "C12", "C13", "C14", "C16", "C19"];
+pub const ALL_PROPS: &[&str] = &["C06", "C11", "C12", "C13", "C14", "C16", "C18", "C19"];
 
 fn arg_val(args: &[String], name: &str) -> Option<String> {
     args.iter().position(|a| a == name).and_then(|i| args.get(i + 1).cloned())
@@ -126,5 +128,6 @@ fn main() {
             2
         }
     };
+    compsim::cleanup_scratch();
     std::process::exit(code);
 }
